@@ -15,12 +15,20 @@ Hypothesis deq_spec : forall a b, deq a b = true <-> a = b.
 Variable decode : list (list byte) -> option (list byte).
 Variable decode1 : list byte -> option (list byte).
 
-(* receiver, protocol >= 2: acceptance implies exact size, decodable stream, matching digest *)
-Theorem C02_receiver_sound_v2 : forall ls size acc w,
-  recv_v2 digest H deq decode size acc ls = Accept w ->
-  decode (acc ++ frames_of digest ls) = Some w /\ Z.of_nat (length w) = size
-  /\ md5_of digest ls = Some (H w).
-Proof. exact (recv_v2_sound digest H deq deq_spec decode). Qed.
+(* receiver, protocol >= 2.  [early] is the schedule of the receiving pipeline: None = pipelineSaveData's
+   step = size check decides; Some k = pipelineSendAck, which reports completion as soon as the saved
+   step EQUALS the announced size, wins against it (possible when the stream is longer than announced
+   and the saved step passes through the announced size - always for size 0) and k bytes reach the file.
+   Acceptance implies: the stream decodes to w, the MD5 line is the digest of w, and either the file
+   holds w and |w| = size, or the race was won and the file holds the first k bytes of a longer w. *)
+Variable early : option nat.
+Theorem C02_receiver_sound_v2 : forall ls size acc written,
+  recv_v2 digest H deq decode early size acc ls = Accept written ->
+  exists w, decode (acc ++ frames_of digest ls) = Some w /\ md5_of digest ls = Some (H w) /\
+    ((written = w /\ Z.of_nat (length w) = size) \/
+     (exists k, early = Some k /\ written = firstn k w /\
+                (0 <= size < Z.of_nat (length w))%Z /\ (size <= Z.of_nat k)%Z /\ (k <= length w)%nat)).
+Proof. exact (recv_v2_sound digest H deq deq_spec decode early). Qed.
 
 (* receiver, protocol 1: acceptance implies matching digest; the size is only a lower bound
    (the legacy loop does not re-check it) *)
@@ -30,12 +38,30 @@ Theorem C02_receiver_sound_v1 : forall fuel ls size w0 w,
             /\ exists tail, w = w0 ++ tail.
 Proof. exact (recv_v1_sound digest H deq deq_spec decode1). Qed.
 
-(* no silent corruption for every delivered line sequence *)
-Theorem C02_no_silent_v2 : forall ls size src w,
-  recv_v2 digest H deq decode size [] ls = Accept w ->
+(* no silent corruption, protocol >= 2.  The full statement - for every delivered line sequence and
+   every schedule - is FALSE for the faithful model (C02_no_silent_v2_refuted below: a SIZE message
+   that announces less than the stream holds, e.g. 0, and the acknowledger winning: the genuine digest
+   is answered with SUCC while the file holds a prefix).  Proved: when the saver's check decides
+   (C02_no_silent_v2_no_race_partial), and for every schedule when the SIZE message delivered is the
+   true one (C02_no_silent_v2_true_size_partial). *)
+Definition C02_no_silent_v2_full : Prop := forall ls size src w,
+  recv_v2 digest H deq decode early size [] ls = Accept w ->
   (forall d, md5_of digest ls = Some d -> unforged digest H src w d) ->
   collision_free_on digest H src w -> w = src.
-Proof. exact (recv_v2_no_silent digest H deq deq_spec decode). Qed.
+
+Theorem C02_no_silent_v2_no_race_partial : forall ls size src w,
+  early = None ->
+  recv_v2 digest H deq decode early size [] ls = Accept w ->
+  (forall d, md5_of digest ls = Some d -> unforged digest H src w d) ->
+  collision_free_on digest H src w -> w = src.
+Proof. exact (recv_v2_no_silent_no_race digest H deq deq_spec decode early). Qed.
+
+Theorem C02_no_silent_v2_true_size_partial : forall ls size src written,
+  size = Z.of_nat (length src) ->
+  recv_v2 digest H deq decode early size [] ls = Accept written ->
+  (forall w d, decode (frames_of digest ls) = Some w -> md5_of digest ls = Some d -> unforged digest H src w d) ->
+  (forall w, decode (frames_of digest ls) = Some w -> collision_free_on digest H src w) -> written = src.
+Proof. exact (recv_v2_no_silent_true_size digest H deq deq_spec decode early). Qed.
 
 Theorem C02_no_silent_v1 : forall fuel ls size src w,
   recv_v1 digest H deq decode1 fuel size [] ls = Accept w ->
@@ -133,7 +159,8 @@ End C02.
 
 Print Assumptions C02_receiver_sound_v2.
 Print Assumptions C02_receiver_sound_v1.
-Print Assumptions C02_no_silent_v2.
+Print Assumptions C02_no_silent_v2_no_race_partial.
+Print Assumptions C02_no_silent_v2_true_size_partial.
 Print Assumptions C02_no_silent_v1.
 Print Assumptions C02_sender_sound.
 Print Assumptions C02_sender_final.
@@ -148,12 +175,12 @@ Print Assumptions C02_transfer_sender_bridge.
 
 (* non-vacuity: with digest = the content itself, a clean two-frame exchange is accepted *)
 Example C02_nonvacuous :
-  recv_v2 (list byte) (fun x => x) list_eqb (fun fs => Some (concat fs)) 3 []
+  recv_v2 (list byte) (fun x => x) list_eqb (fun fs => Some (concat fs)) None 3 []
     [LData _ [1; 2]; LData _ [3]; LData _ []; LMd5 _ [1; 2; 3]] = Accept [1; 2; 3].
 Proof. vm_compute. reflexivity. Qed.
 (* and a flipped payload byte with an intact digest line is rejected *)
 Example C02_flip_rejected :
-  recv_v2 (list byte) (fun x => x) list_eqb (fun fs => Some (concat fs)) 3 []
+  recv_v2 (list byte) (fun x => x) list_eqb (fun fs => Some (concat fs)) None 3 []
     [LData _ [1; 7]; LData _ [3]; LData _ []; LMd5 _ [1; 2; 3]] = Reject.
 Proof. vm_compute. reflexivity. Qed.
 
@@ -212,7 +239,7 @@ Definition C02_resume_full : Prop :=
     (forall x y, Hh x = Hh y -> x = y) ->                      (* even for a collision-free digest *)
     FaultResume.fr_run B Hh src dst delivered = Some o ->
     (* the data phase as the sender produces it for what it transmits is accepted by the receiver *)
-    recv_v2 Resume.digest Hh list_eqb (fun fs => Some (concat fs)) (Z.of_nat (length (FaultResume.fo_sent o))) []
+    recv_v2 Resume.digest Hh list_eqb (fun fs => Some (concat fs)) None (Z.of_nat (length (FaultResume.fo_sent o))) []
       [LData _ (FaultResume.fo_sent o); LData _ []; LMd5 _ (Hh (FaultResume.fo_sent o))] = Accept (FaultResume.fo_sent o) ->
     FaultResume.fo_final o = src.
 
@@ -224,7 +251,7 @@ Theorem C02_resume_refuted :
     (0 < B)%N /\ (forall x y, Hh x = Hh y -> x = y) /\
     delivered = tl (FaultResume.fr_answers B Hh src dst) /\      (* one whole line dropped *)
     FaultResume.fr_run B Hh src dst delivered = Some o /\
-    recv_v2 Resume.digest Hh list_eqb (fun fs => Some (concat fs)) (Z.of_nat (length (FaultResume.fo_sent o))) []
+    recv_v2 Resume.digest Hh list_eqb (fun fs => Some (concat fs)) None (Z.of_nat (length (FaultResume.fo_sent o))) []
       [LData _ (FaultResume.fo_sent o); LData _ []; LMd5 _ (Hh (FaultResume.fo_sent o))] = Accept (FaultResume.fo_sent o) /\
     FaultResume.fo_mrecv o <> FaultResume.fo_msend o /\
     FaultResume.fo_final o <> src.
@@ -253,3 +280,30 @@ Example C02_transfer_sender_nonvacuous :
   let r := ft_send (list byte) (fun x => x) list_eqb (fun x => x) (fun x => x) c ess ms in
   (ss_phase (fst (fst r)), map (fun dn => (fd_sent _ dn, length (fd_msgs _ dn))) (snd r)) = (SpDone, [([2; 1; 0]%N, 7%nat)]).
 Proof. vm_compute. reflexivity. Qed.
+
+(* ------------------------------------------------------------------------------------------
+   The race of the size check (protocol >= 2): witness for the refutation of C02_no_silent_v2_full.
+   Digest = the content itself (collision-free, and the MD5 message is the GENUINE one of the source
+   [1]); the SIZE message delivered says 0; the acknowledger wins before a byte is saved: the
+   receiver answers SUCC, the file is empty. *)
+Theorem C02_no_silent_v2_refuted :
+  exists (early : option nat) (ls : list (line (list byte))) (size : Z) (src w : list byte),
+    recv_v2 (list byte) (fun x => x) list_eqb (fun fs => Some (concat fs)) early size [] ls = Accept w /\
+    (forall d, md5_of (list byte) ls = Some d -> unforged (list byte) (fun x => x) src w d) /\
+    collision_free_on (list byte) (fun x => x) src w /\
+    md5_of (list byte) ls = Some src /\                 (* the digest delivered is the source's *)
+    w <> src.
+Proof.
+  exists (Some 0%nat), [LData _ [1]; LData _ []; LMd5 _ [1]], 0%Z, [1], [].
+  split; [vm_compute; reflexivity|]. split; [|split; [|split; [reflexivity | discriminate]]].
+  - intros d M. cbn in M. inversion M; subst d. unfold unforged. discriminate.
+  - unfold collision_free_on. discriminate.
+Qed.
+Print Assumptions C02_no_silent_v2_refuted.
+Theorem C02_no_silent_v2_full_refuted :
+  ~ (forall digest H deq decode early, C02_no_silent_v2_full digest H deq decode early).
+Proof.
+  intro F. destruct C02_no_silent_v2_refuted as (early & ls & size & src & w & A & U & C & _ & N).
+  exact (N (F _ _ _ _ early ls size src w A U C)).
+Qed.
+Print Assumptions C02_no_silent_v2_full_refuted.
